@@ -80,7 +80,7 @@ EXTRA = {
     "join.rel-base": lambda Y, t: Y.URL(t).join(Y.URL(t)),
 }
 ALL_ENTRIES = entry.NAMES + sorted(EXTRA)
-AUTO_STRINGIFY = {e.name for e in entry.E if e.kind in ("quote", "qstring", "other", "host") or e.name.startswith("join")} | \
+AUTO_STRINGIFY = {e.name for e in entry.E if e.kind in ("quote", "qstring", "qparse", "other", "host") or e.name.startswith("join")} | \
     {"build.authority", "build.scheme", "with_scheme", "without_query_params", "without_query_params.multi", "with_name.rel", "with_suffix.raw", "joinpath.multi", "build.host+path", "build.authority+path",
      "build.path-only", "build.scheme+path", "build.host+port", "build.all", "build.port", "with_port.any", "with_path.noslash", "with_path.rel.noslash", "div.empty-base", "div.rel-base"}
 
